@@ -112,6 +112,13 @@ pub fn render_defect(v: &Narsese) -> Option<String> {
 }
 
 fn string_failure(f: Fmt, s: &str) -> Option<String> {
+    // (every parse builds its hash sets afresh, i.e. with another iteration order: texts long enough to
+    // hold a wide set are parsed and rendered several times)
+    let reps = if s.len() > 80 { 4 } else { 1 };
+    (0..reps).find_map(|_| string_failure_once(f, s))
+}
+
+fn string_failure_once(f: Fmt, s: &str) -> Option<String> {
     match enum_parse_value(f, s) {
         Ok(Ok(v)) => value_defect(&v, true).map(|d| format!("parse accepted {:?} as {} but {}", s, canon_real_narsese(&v), d)).or_else(|| render_defect(&v)),
         Ok(Err(_)) => None,
@@ -313,6 +320,44 @@ pub fn run(ctx: &mut Ctx) {
                     );
                 }
                 probe(ctx, f, &text, "structured-wrong-arity");
+            }
+        }
+    }
+    // (1b) wide sets and other unordered compounds (17..64 members) whose members are digit-led names of
+    // mixed kinds (pure numbers of several lengths, hex-like and suffixed ids, non-ASCII digits): well
+    // formed, so they must parse, format in every format and render, whatever order the set iterates in
+    {
+        let ids: Vec<String> = (1..=24u32)
+            .map(|i| i.to_string())
+            .chain(["1a", "2b", "3c", "4d", "10x", "0x1F", "1e5", "007", "00", "9９", "٣", "x２", "7-up", "a1", "b22", "Z9"].iter().map(|s| s.to_string()))
+            .collect();
+        for f in ALL_FMT {
+            let e = f.e();
+            let sep = format!("{} ", e.compound.separator);
+            for (l, r) in [e.compound.brackets_set_extension, e.compound.brackets_set_intension] {
+                for n in [17usize, 21, 24, 30, 40] {
+                    for mix in 0..6usize {
+                        idx += 1;
+                        if !ctx.mine(idx) {
+                            continue;
+                        }
+                        let members: Vec<String> = (0..n).map(|i| ids[(i * (mix * 2 + 1) + mix * 7) % ids.len()].clone()).collect();
+                        let mut uniq = members.clone();
+                        uniq.sort();
+                        uniq.dedup();
+                        let set = format!("{}{}{}", l, uniq.join(&sep), r);
+                        let texts = [
+                            set.clone(),
+                            format!("{}{} {} B{}{}", e.statement.brackets.0, set, e.statement.copula_inheritance, e.statement.brackets.1, e.sentence.punctuation_judgement),
+                            format!("{}{}{}{}{}", e.compound.brackets.0, e.compound.connecter_conjunction, sep, uniq.join(&sep), e.compound.brackets.1),
+                        ];
+                        for t in texts {
+                            for _ in 0..4 {
+                                probe(ctx, f, &t, "wide-sets-of-digit-led-names");
+                            }
+                        }
+                    }
+                }
             }
         }
     }
